@@ -9,5 +9,5 @@ mkdir -p build evidence replays
 ./driver/build.sh
 # warm the Go build cache (./check rebuilds the harness from /repo's working tree on every run)
 mkdir -p build/hsrc && cp harness/*.go harness/go.mod build/hsrc/ && cp /repo/go.sum build/hsrc/go.sum
-( cd build/hsrc && CGO_ENABLED=0 go build -tags verif -cover -coverpkg=github.com/openacid/low/... -o ../harness-verif . )
+( cd build/hsrc && CGO_ENABLED=0 go build -tags verif -cover -coverpkg=github.com/openacid/low/...,verif/harness -o ../harness-verif . )
 echo setup ok
